@@ -37,6 +37,7 @@ type World struct {
 	mods       map[*ssa.Function]*modInfo
 	files      map[string]*ast.File
 	siteNames  map[siteKey]string
+	libFuncs   map[string]*ssa.Function
 }
 
 type siteKey struct {
@@ -696,6 +697,12 @@ func (w *World) calleeEffect(caller *ssa.Function, c *ssa.CallCommon, out *modIn
 		}
 		return
 	}
+	if callee := c.StaticCallee(); callee != nil && sortCallNames(c) != nil {
+		for _, n := range sortCallNames(c) {
+			out.names[n] = true
+		}
+		return
+	}
 	if callee := c.StaticCallee(); callee != nil {
 		if callee.Pkg != w.pkg && !(callee.Pkg == nil && callee.Parent() != nil) {
 			w.addFnEffect(callee, out, seen)
@@ -1030,4 +1037,126 @@ func sliceIsLocal(v ssa.Value, seen map[ssa.Value]bool) bool {
 		return sliceIsLocal(x.X, seen)
 	}
 	return false
+}
+
+// libFunc finds a function of any loaded package by its full name ("strings.ToLower", "(*strings.Replacer).Replace").
+func (w *World) libFunc(name string) *ssa.Function {
+	if w.libFuncs == nil {
+		w.libFuncs = map[string]*ssa.Function{}
+		for fn := range ssautil.AllFunctions(w.prog) {
+			w.libFuncs[fn.String()] = fn
+		}
+	}
+	return w.libFuncs[name]
+}
+
+// returnSite: a line-independent name for a return statement: its source text.
+func (w *World) returnSite(fn *ssa.Function, pos token.Pos) string {
+	if !pos.IsValid() {
+		return "return"
+	}
+	ps := w.fset.Position(pos)
+	f := w.files[ps.Filename]
+	if f == nil {
+		return "return"
+	}
+	path, _ := astutil.PathEnclosingInterval(f, pos, pos)
+	for _, n := range path {
+		if r, ok := n.(*ast.ReturnStmt); ok {
+			s := strings.Join(strings.Fields(exprString(r)), " ")
+			if len(s) > 40 {
+				s = s[:40] + "…"
+			}
+			return s
+		}
+	}
+	return "return"
+}
+
+// readSet: heaps the function may load, transitively through static calls and
+// in-package implementations of interface calls. top: an unknown callee.
+func (w *World) readSet(fn *ssa.Function, seen map[*ssa.Function]bool, out map[string]bool) (top bool) {
+	if seen[fn] {
+		return false
+	}
+	seen[fn] = true
+	for _, b := range fn.Blocks {
+		for _, ins := range b.Instrs {
+			switch in := ins.(type) {
+			case *ssa.UnOp:
+				if in.Op == token.MUL {
+					if p, sh, ok := addrPath(in.X); ok {
+						for _, n := range leafNames(p, sh) {
+							out[n] = true
+						}
+					} else {
+						top = true
+					}
+				}
+			case ssa.CallInstruction:
+				c := in.Common()
+				if c.IsInvoke() {
+					it, _ := c.Value.Type().Underlying().(*types.Interface)
+					if it == nil {
+						top = true
+						continue
+					}
+					scope := w.pkg.Pkg.Scope()
+					for _, n := range scope.Names() {
+						tn, ok := scope.Lookup(n).(*types.TypeName)
+						if !ok {
+							continue
+						}
+						for _, t := range []types.Type{tn.Type(), types.NewPointer(tn.Type())} {
+							if _, isI := t.Underlying().(*types.Interface); isI || !types.Implements(t, it) {
+								continue
+							}
+							if sel := w.prog.MethodSets.MethodSet(t).Lookup(c.Method.Pkg(), c.Method.Name()); sel != nil {
+								if m := w.prog.MethodValue(sel); m != nil {
+									if w.readSet(m, seen, out) {
+										top = true
+									}
+								}
+							}
+						}
+					}
+					continue
+				}
+				if callee := c.StaticCallee(); callee != nil {
+					if callee.Pkg == w.pkg || (callee.Pkg == nil && callee.Parent() != nil) {
+						if w.readSet(callee, seen, out) {
+							top = true
+						}
+					}
+					continue // library code cannot name the package's types
+				}
+				if _, isB := c.Value.(*ssa.Builtin); !isB {
+					top = true
+				}
+			}
+		}
+	}
+	return top
+}
+
+// sortCallNames: sort.Strings(x) and sort.Sort/Stable(T(x)) for a slice x permute
+// the elements of x's backing array and nothing else (Less/Swap/Len of the
+// package's slice types only read and swap elements). Returns the element heaps
+// written, or nil when the call is not of that shape.
+func sortCallNames(c *ssa.CallCommon) []string {
+	callee := c.StaticCallee()
+	if callee == nil || len(c.Args) != 1 {
+		return nil
+	}
+	switch callee.String() {
+	case "sort.Strings":
+		return []string{"Elem#string[]"}
+	case "sort.Sort", "sort.Stable":
+		if mi, ok := c.Args[0].(*ssa.MakeInterface); ok {
+			if st, ok := mi.X.Type().Underlying().(*types.Slice); ok && !hasArray(shapeOf(st.Elem())) {
+				return leafNames(elemPath(st.Elem()), shapeOf(st.Elem()))
+			}
+		}
+	}
+	return nil
 }
